@@ -85,6 +85,14 @@ type Explore struct {
 	BiasP float64
 }
 
+// YieldSite is one yield point of a run at which a fault can be injected.
+type YieldSite struct {
+	Task  string
+	N     int
+	Op    string
+	Kinds []FaultKind
+}
+
 type ctxKeyT struct{}
 
 var ctxKey ctxKeyT
@@ -120,6 +128,8 @@ type World struct {
 	sqlUnsupported      string // first statement the interpreter could not handle (the run is then inconclusive)
 	sqlUnsupportedTaint string
 	parkSeq             int
+	recordYields        bool // fault enumeration: remember every yield that admits a fault
+	yields              []YieldSite
 	victims             map[string]int // op id -> how often one of its statements was the victim of an organic deadlock
 	lenientReads        bool           // see unmodelled
 	sites               [][3]string    // (task, store call, fault fired or "") for every step at a yield that admits faults
@@ -520,6 +530,9 @@ func (w *World) Step() bool {
 			k = string(fault.Kind)
 		}
 		w.sites = append(w.sites, [3]string{chosen.key, chosen.op, k})
+	}
+	if w.recordYields && !chosen.lockWait && len(chosen.kinds) > 0 {
+		w.yields = append(w.yields, YieldSite{Task: chosen.key, N: chosen.n, Op: chosen.op, Kinds: append([]FaultKind(nil), chosen.kinds...)})
 	}
 	w.logf("step %d: %s#%d %s %s%s", w.steps, chosen.key, chosen.n, chosen.op, chosen.note, fs)
 	w.trace = append(w.trace, chosen.key+":"+chosen.op+fs)
